@@ -155,7 +155,44 @@ pub fn range_text(rng: &mut StdRng, cfg: &GenCfg) -> String {
     let c2 = rng.gen_range(c1..=cfg.cols);
     let r1 = rng.gen_range(1..=cfg.rows);
     let r2 = rng.gen_range(r1..=cfg.rows);
-    format!("{}{}:{}{}", colname(c1), r1, colname(c2), r2)
+    anchored_range(rng, r1, c1, r2, c2)
+}
+
+/// A1:B2 with independent `$` markers on the four coordinates (mixed anchoring included)
+fn anchored_range(rng: &mut StdRng, r1: i32, c1: i32, r2: i32, c2: i32) -> String {
+    let mut d = || if rng.gen_bool(0.2) { "$" } else { "" };
+    let (a, b, c, e) = (d(), d(), d(), d());
+    format!("{a}{}{b}{}:{c}{}{e}{}", colname(c1), r1, colname(c2), r2)
+}
+
+/// A formula that only reads cells in rows above `row` on its own sheet: no cycle is
+/// possible among formulas generated this way, whatever order they are entered in.
+pub fn acyclic_formula(rng: &mut StdRng, cfg: &GenCfg, row: i32) -> String {
+    if row <= 1 {
+        return format!("={}+{}", rng.gen_range(1..9), rng.gen_range(1..9));
+    }
+    let top = row - 1;
+    let mut cell = |rng: &mut StdRng| {
+        let (d1, d2) = (if rng.gen_bool(0.2) { "$" } else { "" }, if rng.gen_bool(0.2) { "$" } else { "" });
+        format!("{d1}{}{d2}{}", colname(rng.gen_range(1..=cfg.cols)), rng.gen_range(1..=top))
+    };
+    let range = |rng: &mut StdRng| {
+        let c1 = rng.gen_range(1..=cfg.cols);
+        let c2 = rng.gen_range(c1..=cfg.cols);
+        let r1 = rng.gen_range(1..=top);
+        let r2 = rng.gen_range(r1..=top);
+        anchored_range(rng, r1, c1, r2, c2)
+    };
+    match rng.gen_range(0..8) {
+        0 => format!("={}+{}", cell(rng), cell(rng)),
+        1 => format!("=SUM({})", range(rng)),
+        2 => format!("=IF({}>2,{},\"x\")", cell(rng), cell(rng)),
+        3 => format!("=COUNT({})+1.5", range(rng)),
+        4 => format!("=({})&\"-\"&({})", cell(rng), cell(rng)),
+        5 => format!("=MAX({},{})", range(rng), cell(rng)),
+        6 => format!("=-({})*2", cell(rng)),
+        _ => format!("=AVERAGE({})", range(rng)),
+    }
 }
 
 pub fn formula(rng: &mut StdRng, cfg: &GenCfg, sheets: &[String], depth: u32) -> String {
@@ -350,6 +387,18 @@ pub fn gen_op(rng: &mut StdRng, um: &UserModel, cfg: &GenCfg) -> Op {
     let w = rng.gen_range(1..=3);
     let h = rng.gen_range(1..=3);
     let names = ["myname", "other", "local"];
+    if cfg.view_ops && rng.gen_bool(0.2) {
+        // selection workloads: sheet-level operations at every index relative to the selection
+        return match rng.gen_range(0..8) {
+            0 => Op::NewSheet,
+            1 => Op::DeleteSheet(sh),
+            2 => Op::DuplicateSheet(sh),
+            3 => Op::MoveSheet(sh, rng.gen_range(0..n)),
+            4 => Op::HideSheet(sh),
+            5 => Op::UnhideSheet(sh),
+            _ => Op::SelectSheet(sh),
+        };
+    }
     let upper = if cfg.view_ops { 118 } else { 104 };
     match rng.gen_range(0..upper) {
         0..=27 => Op::Input(sh, row, col, value(rng, cfg, &sheets)),
@@ -938,6 +987,12 @@ pub fn gen_op_avoiding(rng: &mut StdRng, um: &UserModel, cfg: &GenCfg) -> Op {
     for _ in 0..40 {
         let op = gen_op(rng, um, cfg);
         if cfg.avoid.is_empty() || !op_features(&op).iter().any(|f| cfg.avoid.contains(*f)) {
+            let op = match op {
+                Op::Input(s, r, c, v) if v.starts_with('=') && cfg.avoids("cyclic") => {
+                    Op::Input(s, r, c, acyclic_formula(rng, cfg, r.min(cfg.rows + 1)))
+                }
+                other => other,
+            };
             return localize(op, comma_decimal);
         }
     }
